@@ -39,6 +39,9 @@ def ref_tree(t):
     raise TypeError(t)
 
 
+MACHINES = {}  # import alias -> gofront.Machine of the imported package (set per batch)
+
+
 def go_tree(m: gofront.Machine, e, depth=0):
     """Normalise a Go processor expression."""
     if depth > 40:
@@ -76,7 +79,14 @@ def go_tree(m: gofront.Machine, e, depth=0):
         if x[0] == "lit":
             x = x[1]
         if x[0] == "sel":
-            raise bind.InfraError("imported type in single-file evaluation")
+            # pkg.Type: the type lives in an imported package
+            if x[1][0] != "id" or x[1][1] not in MACHINES:
+                return ("missing", "%r" % (x,))
+            m2 = MACHINES[x[1][1]]
+            meth = m2.methods.get((x[2], "BpProcessor"))
+            if meth is None:
+                return ("missing", "%s.%s" % (x[1][1], x[2]))
+            return go_method_tree(m2, meth, depth + 1)
         tname = x[1]
         meth = m.methods.get((tname, "BpProcessor"))
         if meth is None:
@@ -99,6 +109,9 @@ def go_method_tree(m, meth, depth=0):
             a = s[1][0][2]
             return ("msg", a[0][1] == "true", a[1][1], tuple(fields))
     raise bind.InfraError("unexpected BpProcessor body")
+
+
+PYMODS = {}  # import alias -> (funcs, classes) of the imported generated module (set per batch)
 
 
 def py_tree(mod: pyast.Module, funcs, classes, e, depth=0):
@@ -128,6 +141,14 @@ def py_tree(mod: pyast.Module, funcs, classes, e, depth=0):
     if isinstance(f, pyast.Name) and f.id in funcs:
         ret = [s for s in funcs[f.id].body if isinstance(s, pyast.Return)][0]
         return py_tree(mod, funcs, classes, ret.value, depth + 1)
+    if isinstance(f, pyast.Attribute) and isinstance(f.value, pyast.Name) and f.value.id in PYMODS and f.attr in PYMODS[f.value.id][0]:
+        lf, lc = PYMODS[f.value.id]
+        ret = [s for s in lf[f.attr].body if isinstance(s, pyast.Return)][0]
+        return py_tree(mod, lf, lc, ret.value, depth + 1)
+    if isinstance(f, pyast.Attribute) and f.attr == "bp_processor" and isinstance(f.value, pyast.Call) and isinstance(f.value.func, pyast.Attribute) \
+            and isinstance(f.value.func.value, pyast.Name) and f.value.func.value.id in PYMODS:
+        lf, lc = PYMODS[f.value.func.value.id]
+        return py_class_tree(mod, lf, lc, f.value.func.attr, depth + 1)
     if isinstance(f, pyast.Attribute) and f.attr == "bp_processor" and isinstance(f.value, pyast.Call) and isinstance(f.value.func, pyast.Name):
         return py_class_tree(mod, funcs, classes, f.value.func.id, depth + 1)
     raise bind.InfraError("unexpected python processor call %s" % pyast.dump(e)[:80])
@@ -240,7 +261,11 @@ def check_message(m: gofront.Machine, md: MessageDef, sname: str, problems):
         # element type through array layers of the struct field's own type
         t = gtype
         d = 0
+        m_outer = m
         while True:
+            if t[0] == "qual" and t[1] in MACHINES:
+                m = MACHINES[t[1]]
+                t = ("name", t[2])
             while t[0] == "name" and t[1] in m.types and m.types[t[1]][0] in ("array", "name") and kind != "msg" and m.int_info(t[1]) is None \
                     and m.underlying(t[1]) != ("name", "bool"):
                 t = m.types[t[1]]
@@ -262,6 +287,7 @@ def check_message(m: gofront.Machine, md: MessageDef, sname: str, problems):
             if t[0] != "name" or m.underlying(t[1]) != ("name", "bool"):
                 problems.append(("struct", "%s.%s element type %s is not bool" % (sname, gname, go_type_text(t))))
         by_num[f.number] = (gname, depth, kind, width)
+        m = m_outer
     meths = {n: m.methods.get((sname, n)) for n in ("BpSetByte", "BpGetByte", "BpGetAccessor", "BpProcessInt", "Size")}
     for n, meth in meths.items():
         if meth is None:
@@ -302,8 +328,14 @@ def check_message(m: gofront.Machine, md: MessageDef, sname: str, problems):
                     conv = rhs[2] if rhs[0] == "bin" else rhs
                     while conv[0] == "paren":
                         conv = conv[1]
-                    if conv[0] == "call" and conv[1][0] == "id":
-                        info = m.int_info(conv[1][1])
+                    if conv[0] == "call" and conv[1][0] in ("id", "sel"):
+                        if conv[1][0] == "sel":
+                            info = MACHINES[conv[1][1][1]].int_info(conv[1][2]) if conv[1][1][0] == "id" and conv[1][1][1] in MACHINES else None
+                            cname = "%s.%s" % (conv[1][1][1], conv[1][2])
+                        else:
+                            info = m.int_info(conv[1][1])
+                            cname = conv[1][1]
+                        conv = ("call", ("id", cname))
                         if info != storage(width, kind == "int"):
                             problems.append(("accessor", "%s.BpSetByte case %d converts through %s (%r), storage is %r" % (sname, n, conv[1][1], info, storage(width, kind == "int"))))
                 if label == "BpProcessInt" and s[0] == "assign":
@@ -336,9 +368,10 @@ def messages_of(c: scope.Case):
 
 def run_unit(unit):
     _, tier, idxs = unit
-    sp = [c for c in pycodec.space(tier) if copt.go_supported(c)]
+    sp = pycodec.space(tier)
     cases = [sp[i] for i in idxs]
     out = UnitOut()
+    global MACHINES, PYMODS
     with Scratch() as sc:
         d = sc.sub("g")
         batch = scope.make_batch(cases)
@@ -348,13 +381,23 @@ def run_unit(unit):
                 p = parse_file(os.path.join(d, batch.filename))
                 gotext = "\n".join(render_strings(p, "go").values())
                 pytext = "\n".join(render_strings(p, "py").values())
+                # imported files: each compiled on its own, as a user does
+                libs = {}
+                for (as_name, child) in batch.imports:
+                    cp = parse_file(os.path.join(d, child.filename))
+                    libs[as_name or child.name] = ("\n".join(render_strings(cp, "go").values()), "\n".join(render_strings(cp, "py").values()))
         except Exception as e:
             out.violation(check="pipeline", symptom=type(e).__name__, site=repo_site(e), features=[], desc="go/py rendering failed", detail=exc_summary(e))
             return out.result()
         try:
             gast = gofront.parse(gotext)
+            MACHINES = {alias: gofront.Machine(gofront.parse(gt)) for alias, (gt, pt) in libs.items()}
         except gofront.GoSyntaxError as e:
             raise bind.InfraError("gofront cannot read generated Go: %s" % e)
+        PYMODS = {}
+        for alias, (gt, pt) in libs.items():
+            lm = pyast.parse(pt)
+            PYMODS[alias] = ({s.name: s for s in lm.body if isinstance(s, pyast.FunctionDef)}, {s.name: s for s in lm.body if isinstance(s, pyast.ClassDef)})
         m = gofront.Machine(gast)
         mod = pyast.parse(pytext)
         funcs = {s.name: s for s in mod.body if isinstance(s, pyast.FunctionDef)}
@@ -465,7 +508,7 @@ def dispatch(unit):
 
 
 def units(tier):
-    sp = [c for c in pycodec.space(tier) if copt.go_supported(c)]
+    sp = pycodec.space(tier)
     idx = list(range(len(sp)))
     return [("S", tier, idx[i:i + BATCH]) for i in range(0, len(idx), BATCH)] + [("H", tier)]
 
@@ -477,13 +520,13 @@ def main(pid, tier):
     c = acc.counters
     cov = dict(states=c["states"], transitions=c["transitions"], traces_validated_against_impl=c["traces"], evaluations=c["evaluations"],
                distinct_nontrivial=c["nontrivial"], messages=c["messages"],
-               rule="single-file states of SING u COMB u TREE: the generated .go text is parsed by bpmc/gofront; per message: struct fields in "
+               rule="states of SING u COMB u TREE (incl. definitions placed in imported files): the generated .go text is parsed by bpmc/gofront; per message: struct fields in "
                     "field-number order with PascalCase names, json tags, smallest covering integer types, array depth; Size()/BYTES_LENGTH constant == "
                     "Python == ceil(N/8); BpProcessor() tree normalised to (field number, kind, width, capacity, extensible, children) == the tree "
                     "normalised from the generated Python bp_processor() == the reference layout; BpSetByte/BpGetByte/BpGetAccessor/BpProcessInt case "
                     "labels, addressed field, index depth, conversion type, sign-extension shifts; Go runtime helpers getMask/getNbitsToCopy/"
                     "smartShift/min/Byte2bool/Bool2byte interpreted on their whole domain vs lib/py; non-trivial = message with > 1 field / helper call",
-               exhaustive=True, bound="single-file subset of SING(%s) u COMB(2) u TREE" % tier)
+               exhaustive=True, bound="SING(%s) u COMB(2) u TREE (definitions placed in imported files are resolved across the generated packages)" % tier)
     return finish(PID, tier, acc, cov, t0, assumptions=["bpmc/gofront's reading of the Go specification", "Python's ast module"])
 
 
